@@ -674,6 +674,13 @@ def run_case(case):
         iso[f'i{k}'] = fin.get('i0')
     obs['iso_diff'] = {ent: changed_names(iso.get(ent), desc) for ent, desc in final.items()
                        if strip(iso.get(ent)) != strip(desc)}
+    # parameters of a class that have a 'datatype' key in propertyValues in only one of the two worlds (the effective
+    # description is the same - the default ValueType - but only with the key the class can be instantiated); read by
+    # the classifiers when an instance exists in one world only
+    def dtkeys(desc):
+        return {a['n'] for a in (desc or {}).get('acc', []) if a['k'] == 'P' and 'datatype' in a['pv']}
+    obs['iso_dtkey'] = {ent: sorted(dtkeys(desc) ^ dtkeys(iso.get(ent))) for ent, desc in final.items()
+                        if ent[0] == 'c' and iso.get(ent) is not None and dtkeys(desc) != dtkeys(iso.get(ent))}
     # the modelled part of the commands that differ, as they are in the isolated replay (read by a classifier)
     obs['iso_cmd'] = {ent: {n: _cmd_pv(iso.get(ent), n) for n in names if n in CMDS}
                       for ent, names in obs['iso_diff'].items() if any(n in CMDS for n in names)}
@@ -923,8 +930,8 @@ def _normalise(case, obs, failure):
         # the instance exists in only one of the two worlds: explained iff the description of its class differs
         # between them, in accessibles that a known finding covers
         ent = f'c{_class_of(case, failure["entity"])}'
-        names = obs['iso_diff'].get(ent, [])
-        failure = dict(failure, names=names)
+        names = sorted(set(obs['iso_diff'].get(ent, [])) | set(obs.get('iso_dtkey', {}).get(ent, [])))
+        failure = dict(failure, names=names, entity=ent, **{'class': 'class-depends-on-others'})
     if failure['entity'][0] == 'i' and 'value' in names:
         # `$` in the units of other parameters is replaced by the unit of `value` when the instance is created: they
         # differ as a consequence whenever the unit of `value` does
@@ -1576,7 +1583,7 @@ def cmd_cases():
 
 def gen_cases(seed, tier):
     rng = random.Random(seed * 1000003 + 9)
-    n = {'quick': 2000, 'thorough': 24000, 'search': 24000}[tier]
+    n = {'quick': 2000, 'thorough': 14000, 'search': 14000}[tier]
     cases = [rand_case(rng) for _ in range(n)]
     ex = exhaustive_cases()
     if tier == 'quick':
